@@ -12,6 +12,18 @@ COMMON_ASSUME = [
 ]
 
 REGISTRY = {
+    "C05": {
+        "level": "exploration",
+        "technique": "relation checker over plans of the real DefaultPolicy on real ClusterStates built from generated topologies (hooks: in-memory ClusterState, per-node connected override), recording the Option<Shard> of every target",
+        "rule": "cases = worlds (C04 topology without duplicate tokens x enabled set via host filter x connected set via override; every assignment enumerated for clusters of <= 3 nodes quick / <= 4 thorough, sampled above) x 3-5 policies {token-aware, preference none/DC/DC+rack/inherited, failover, shuffling} x 3-5 requests {token or none, known/unknown keyspace, tablet table, LWT flag, 9 consistencies, serial consistency}; views judged: Plan::new output, fallback() with its Option<Shard>, pick() membership; LWT requests repeated with 8 fresh policies; "
+                "one evaluation = one plan; non-trivial = plan with >= 2 targets; distinct = distinct world",
+        "assumptions": COMMON_ASSUME + ["replicas are what refmodel/replication.rs (C04) says, for tablet tables the tablet's replica list", "shuffle/rotation order, size_hint and the consistency-dependent failover wording of the docs are not asserted"],
+        "quick": [{"variant": "dbg", "scale": 0.5}],
+        "thorough": [{"variant": "dbg", "timeout_t": 5400}],
+        "level_text": "Every plan is checked against the statement's relations only: no target twice, no host-filtered node, no node outside the preferred datacenter unless failover is permitted, every other token-owning node present, live local-rack replicas before live local-DC replicas before live remote replicas before other live nodes before nodes believed down, and for LWT the replica prefix in ring order, identical across fresh policies and random states.",
+        "level_note": "trusted: refmodel/plan.rs + refmodel/replication.rs; ClusterState built by the real ClusterState::new (hook), liveness through the per-node override hook",
+        "design_ref": "DESIGN.md §4 C05",
+    },
     "C01": {
         "level": "exploration",
         "technique": "independent CQL v4 value codec (from the spec) as reference model over generated (type, value, carrier) cases; three equations per case; debug overflow traps as extra oracle",
@@ -171,10 +183,10 @@ REGISTRY = {
         "level": "exploration",
         "technique": "reference-model monitor (independent SimpleStrategy/NTS walker) + metamorphic relations over generated rings, on the real ClusterState/ReplicaLocator built through a hook",
         "rule": "cases = (ring topology, replication strategy, token, datacenter restriction, pre-computed or not); rings of up to 12 nodes x 3 DCs x 4 racks incl. rack-less / DC-less nodes, vnodes, extreme and duplicate tokens; per ring every DC x RF 0..nodes+2; "
-                "tokens = ring tokens, +-1, extremes, midpoints; non-trivial = non-empty ring; distinct = distinct (ring, strategy, token, dc, path)",
+                "tokens = ring tokens, +-1, extremes, midpoints (capped at 40 quick / 96 thorough); one locator pre-computes a random subset of the strategies, a second one nothing; one evaluation = one query (token x locator x datacenter restriction); non-trivial = some token has a non-empty replica set; distinct = distinct (ring, strategy)",
         "assumptions": COMMON_ASSUME,
-        "quick": [{"variant": "dbg", "scale": 0.25}],
-        "thorough": [{"variant": "dbg", "scale": 1.0}],
+        "quick": [{"variant": "dbg", "scale": 0.5}],
+        "thorough": [{"variant": "dbg", "scale": 1.0, "timeout_t": 5400}],
         "level_text": "Every generated (ring, strategy, token) is answered by the real ReplicaLocator and compared with a 30-line model of the servers' placement rule, plus the statement's internal relations (pre-computed == on-the-fly, DC filter, len == iteration == ordered view, choose_filtered membership, ring order). Sampled inputs, exhaustive RF range per ring.",
         "level_note": "trusted: refmodel/replication.rs; ClusterState is built by the real ClusterState::new through the ClusterProbe hook (nodes disabled by a host filter)",
         "design_ref": "DESIGN.md §4 C04",
